@@ -19,6 +19,9 @@ U13 = ("u13_mapper_builder", {})
 U14 = ("u14_writer_builder", {})
 U15 = ("u15_classifiers", {})
 U16 = ("u16_print_parse", {})
+U17 = ("u17_signature", {})
+U18 = ("u18_values", {})
+U19 = ("u19_parse_trace", {})
 U12M = ("u12_text_trace", {"which": "mapper"})
 U12C = ("u12_text_trace", {"which": "cache"})
 U3 = ("u3_interpretation", {})
@@ -37,7 +40,7 @@ BUILDERS_ASSUMED = ("builders: both are verified as wholes -- the loop plumbing 
 PROPS = {
     "C01": {
         "title": "Line-based retrace returns exactly the recorded call stack",
-        "units": [U1F, U2F, U3, U6M, U6W, U13, U15],
+        "units": [U1F, U2F, U3, U6M, U6W, U13, U15, U18],
         "kani": [],
         "technique": "Verus (Z3) function contracts on mechanically extracted reader code: iterate_with_lines/next == head of spec retrace(); remap_frame == exact entry block",
         "level_text": "Deductive proof, for all field values / slice lengths / iterations, that both readers' frame iterators yield exactly "
@@ -63,7 +66,7 @@ PROPS = {
     },
     "C03": {
         "title": "Parameter-based retrace",
-        "units": [U1F, U2F, U8, U6M, U6W, U13, U14],
+        "units": [U1F, U2F, U8, U6M, U6W, U13, U14, U18],
         "kani": [],
         "technique": "Verus contracts: iterate_without_lines == head of by_params(); remap_frame(by params) == exact (name, params) block",
         "level_text": "Proof that a frame carrying parameters is answered from exactly the entries whose (obfuscated name, params) match, one frame "
@@ -73,7 +76,7 @@ PROPS = {
     },
     "C04": {
         "title": "Class lookup exact; method lookup never guesses",
-        "units": [U1F, U2F, U6M, U6W, U13, U14],
+        "units": [U1F, U2F, U6M, U6W, U13, U14, U18],
         "kani": [],
         "technique": "Verus contracts on get_class / remap_class / remap_method (iff-unanimous postcondition), both readers",
         "level_text": "Proof that remap_class answers iff a class with exactly that obfuscated name exists, and remap_method answers (class, m) iff "
@@ -132,7 +135,7 @@ PROPS = {
     },
     "C08": {
         "title": "Typed stack-trace remapping keeps every element",
-        "units": [U10M, U10C],
+        "units": [U10M, U10C, U18, U16],
         "kani": [],
         "technique": "Verus contract on the whole recursive remap_stacktrace_typed (both copies): exception kept, remapped-or-same, cause depth preserved",
         "level_text": "Proof (with recursion, decreases on cause depth) that typed remapping never drops the exception of a trace or of any "
@@ -204,21 +207,46 @@ PROPS = {
         "bounded": ["kani::k9_parse_error_kinds_le96: buffer length <= 96 bytes; NOT counted as proved for longer buffers"],
         "design_ref": "DESIGN.md 5/C11",
     },
+    "C16": {
+        "title": "Valid JVM descriptors deobfuscate to the right Java types, invalid ones to none",
+        "units": [U17],
+        "kani": [],
+        "technique": "Verus contracts on the real descriptor tokenizer, the two type renderers, the two assembly functions and DeobfuscatedSignature::{new,return_type,format_signature} against reference functions over UTF-8 bytes (tok / sig_spec / render / deob_spec / fmt_sig_spec), plus grammar lemmas linking the reference tokenizer to JVMS field descriptors",
+        "level_text": "Proof for every string: parse_obfuscated_bytecode_signature returns exactly sig_spec (strip `(`, split at the last `)`, non-empty return type, windows of the reference tokenizer tok; "
+                      "None iff sig_spec is None); java_base_types accepts exactly ZBCSIJFDV and returns the JVMS keyword of the letter; byte_code_type_to_java_type and its cache copy return exactly "
+                      "render(bytes, class mapping, 0) (each `[` appends `[]`, base letter -> keyword, `Lname;` -> dotted name replaced by the mapping's original name when known, None without a "
+                      "final `;`), the SAME reference function for both, so mapper and cache agree on every string whenever their remap_class agree (lemma_renderers_agree); "
+                      "deobfuscate_bytecode_signature[_cache] return exactly deob_spec (one rendered type per tokenizer window in order, then the return type; None iff the tokenizer or the return type fails); "
+                      "format_signature returns `(` params joined by `, ` `)` and `: ` return type unless it is empty or `void`. Pure lemmas for ALL byte strings: a parameter list that is a concatenation "
+                      "of JVMS field descriptors is tokenized at exactly the type boundaries (one window per parameter, in order; object names may contain or start with base letters); no `(`, no `)`, "
+                      "an empty return type or an unterminated object type give no result.",
+        "assumed": ["the std models of this unit: str::{strip_prefix, rsplit_once, get, ends_with, is_empty, chars, char_indices, replace(ASCII char, 1-byte str), to_string}, Chars::{next, next_back, as_str} as a window of bytes "
+                    "(an ASCII char is its byte, every byte of a non-ASCII char is >= 0x80), String::{push_str, as_str}, [String]::join, format! (literal pieces and Display renderings in order; Display of &str / String is the string), "
+                    "Vec::into_iter().filter(f1).filter_map(f2).collect() = the kept and mapped items in order (one shim, closures carry their contracts)",
+                    "string literals denote their UTF-8 bytes (axiom generated from the literals in the extracted text)",
+                    "ProguardMapper::remap_class / ProguardCache::remap_class are abstract functions from the dotted name to the original name here (their own contracts: units u2 / u1); that the two agree for a cache written from the same mapping is C07-style refinement, not proved here",
+                    "ProguardMapper::deobfuscate_signature / ProguardCache::deobfuscate_signature (`.map(DeobfuscatedSignature::new)` with a function path as closure), DeobfuscatedSignature::parameters_types and its Display impl are not under contract (one-line glue)"],
+        "not_decided": ["that the class mapping used by the cache equals the mapper's (the statement's `mapper and cache agree` is proved relative to agreement of remap_class)"],
+        "design_ref": "DESIGN.md 5/C16",
+    },
     "C17": {
         "title": "Printing a stack trace and parsing it back is lossless",
-        "units": [U16, U15],
+        "units": [U16, U15, U18, U19],
         "kani": [],
-        "technique": "Verus contracts on the real Display::fmt bodies of StackFrame and Throwable (what is printed) and on parse_frame / parse_throwable (exact reference parsers, unit u15), plus pure round-trip lemmas between the two",
-        "level_text": "Single frames and throwables only. Proof that StackFrame's Display appends `at ` class `.` method `(` file `:` decimal line `)` and Throwable's Display appends "
-                      "class [`: ` message]; that parse_frame / parse_throwable are exactly the reference parsers frame_spec / first-`: `-split on the trimmed line; and, as pure lemmas "
-                      "for ALL byte strings c, m, f and numbers n, that frame_spec(frame_text(c, m, f, n)) == Some((c, m, f, n)) when class.method has no `(`, method no `.`, file no `:`, "
-                      "and that the class / message of throwable_text(c, msg) are (c, msg) when the class has no space. Whole traces (Display of StackTrace, parse_stacktrace) are NOT decided.",
-        "assumed": ["write! appends the literal pieces and the renderings of its arguments in order; `{}` of a &str appends the string, of a usize its decimal digits dec(n), and parse(dec(n)) == n",
+        "technique": "Verus contracts on the real Display::fmt bodies of StackFrame, Throwable and StackTrace (what is printed), on parse_frame / parse_throwable (exact reference parsers, unit u15) and on parse_stacktrace (prophetic &mut reasoning against a reference trace parser, unit u19), plus pure round-trip lemmas for single lines",
+        "level_text": "Proof that StackFrame's Display appends `at ` class `.` method `(` file `:` decimal line `)`, Throwable's Display appends class [`: ` message], StackTrace's Display appends "
+                      "[exception line] + one four-space-indented line per frame in order + [`Caused by: ` + the cause]; that parse_frame / parse_throwable are exactly the reference parsers frame_spec / "
+                      "first-`: `-split on the trimmed line (and StackFrame::try_parse / Throwable::try_parse the same on valid UTF-8); that parse_stacktrace / StackTrace::try_parse return exactly the nested "
+                      "trace of the reference parser trace_spec over the lines (exception from the first line, frames to the innermost trace, `Caused by: ` opens a new innermost trace, None iff no exception and no frame); "
+                      "and, as pure lemmas for ALL byte strings c, m, f and numbers n, that frame_spec(frame_text(c, m, f, n)) == Some((c, m, f, n)) when class.method has no `(`, method no `.`, file no `:`, "
+                      "and that the class / message of throwable_text(c, msg) are (c, msg) when the class has no space. The whole-trace round trip parse(print(t)) == t is NOT composed from the two halves.",
+        "assumed": ["write! appends the literal pieces and the renderings of its arguments in order; `{}` of a &str appends the string, of a usize its decimal digits dec(n), and parse(dec(n)) == n; `{}` of a reference or a Box prints the value behind it",
                     "str::trim is the identity on text without outer white space (needed to compose print and parse; stated as a hypothesis, not proved)",
                     "`{}` of a nested value appends exactly what its Display::fmt appends (links the fmt bodies to display_of in units u12 / u16)",
                     "the str API contracts of contracts/text_model.rs (split_once / rsplit_once as first / last occurrence, starts_with, ends_with, slicing)",
-                    "multi-line traces: StackTrace::fmt and parse_stacktrace (a `&mut` walk over boxed causes) are outside the verifier's reach"],
-        "not_decided": ["stack traces with frames and cause chains (only single frames and throwables are decided)", "print(parse(print(x))) == print(x) follows from parse(print(x)) == x and is not stated separately"],
+                    "u19: content.lines().peekable() yields an abstract sequence lines_of(content); Peekable::{peek,next}; str::strip_prefix(&str) abstract; Option<Box<T>>::as_deref_mut().unwrap() returns the &mut to the boxed value (prophecy clause); "
+                    "parse_frame / parse_throwable are functions of their argument (what they compute is unit u15); std::str::from_utf8 abstract"],
+        "not_decided": ["parse_stacktrace(to_string(t)) == t for whole traces (needs lines_of of a concatenation; the two halves are proved separately)", "print(parse(print(x))) == print(x) follows from parse(print(x)) == x and is not stated separately"],
         "design_ref": "DESIGN.md 5/C17",
     },
     "C19": {
@@ -247,19 +275,18 @@ PROPS = {
     },
     "C13": {
         "title": "No mapping bytes and no query can make the library panic or overflow",
-        "units": [U2S, U5, U7, U10M, U3, U8, U9, U6M, U6W, U1S, U4, U10C, U11, U13, U14, U15],
+        "units": [U2S, U5, U7, U10M, U3, U8, U9, U6M, U6W, U1S, U4, U10C, U11, U13, U14, U15, U17, U19],
         "kani": ["k3_java_base_types"],
         "technique": "Verus implicit obligations on the mapper reader with NO precondition on entry values",
         "level_text": "The mapper's reader functions are verified with arbitrary usize entry values and any frame: no overflow, no out-of-bounds, termination.",
         "assumed": ["str API contracts of contracts/text_model.rs (std documentation restated over an uninterpreted byte view) for parse_frame and parse_obfuscated_bytecode_signature",
-                    "not covered: parse_stacktrace (`current.cause.as_deref_mut().unwrap()` walk), parse_throwable and the other total str-pattern classifiers, byte_code_type_to_java_type (Chars::next_back + format!), Display impls, the record-dispatch loops of the two builders"],
+                    "not covered: DeobfuscatedSignature::parameters_types (iterator adapter), StackTrace::cause (Option::as_deref), StackFrame::full_method, the Debug helpers of cache/debug.rs"],
         "design_ref": "DESIGN.md 5/C13",
     },
 }
 
 NOT_APPLICABLE = {
     "C14": "quantifies over processes, hash seeds and threads; within one run the collected classes are a function of the record stream (u14) and the tail a function of (classes in key order, strings) (u8), but watto::StringTable::into_bytes (the string section) and the absence of HashSet/HashMap iteration in the output path are outside any contract within reach",
-    "C16": "descriptor tokenizer/renderers are char_indices/rsplit_once/format! code rejected by the Verus front end; Kani does not finish on 6 symbolic bytes (measured)",
     "C18": "two lines behind lazy_static! and the optional uuid dependency (SHA-1 inside the dependency); feature is off in the pinned build; a contract would restate the call",
     "C20": "schedules are outside both tools (Kani has no threads; Verus would need its own permission types on code that has no synchronisation); Send+Sync is a type-checker fact",
 }
